@@ -22,6 +22,15 @@ CHECKS = {
         "(byte value x position parity x length parity) table.",
    technique="Coq proof (induction on lists, lia on nested ifs) + py2coq bridge + vm_compute correspondence",
    note=COMMON_NOTE + "bytearray element stores assumed in range(256) (true for byte inputs; an out-of-range store would show as an exception in the correspondence).", ref="8 (C08)"),
+ 'C10': dict(
+   text="Coq theorems over ALL byte lists / lengths / multiples (Properties/C10.v: interleave and deinterleave are the index maps isrc/dsrc of the "
+        "length alone, mutually inverse bijections of [0,n), hence inverse length-preserving permutations; flip is an involution on bytes fixing "
+        "0 and 128; swap_multiples rejects negatives, is the identity for 0, and for m>0 is an involution preserving length, multiset, every "
+        "non-multiple's position and the set of multiple positions; any pipeline is undone by the inverses in reverse order), tied to the source by "
+        "py2coq + bridge lemmas (flip_msb loop; interleave/deinterleave/swap_multiples loops when Bridge/B_encrypt_loops.v is present) and by "
+        "correspondence of the implementation with both the model and the translated loops (fuelled while loops evaluated by vm_compute).",
+   technique="Coq proof (index-map bijection, run-reversal induction, Permutation) + py2coq bridges + vm_compute correspondence",
+   note=COMMON_NOTE + "bytearray stores assumed in range(256) (true for byte inputs).", ref="8 (C10)"),
  'C11': dict(
    text="Coq theorems for ALL challenges (Properties/C11.v: hash = published formula with truncating remainder Z.rem on 0<=c<253^3; "
         "0 <= hash < 253^4 up to 11,092,110 analytically + a 107-value forallb sweep; helper = Z.rem for b>0; the unrepaired helper is "
